@@ -112,7 +112,40 @@ Ordinal(n) == Digits(n) \o (IF (n % 100) \in 11..13 THEN <<116, 104>>
 ToSetOf(s) == { s[i] : i \in 1..Len(s) }
 
 -----------------------------------------------------------------------------
-(* Pure calls: c = [fn, s1, s2, s3, n1, n2, n3].  Expected(c) is the textbook result. *)
+(* Symbolic sizes.  Positions, lengths and counts are size_t values; TLC integers are 32-bit.  A call therefore    *)
+(* carries, next to its numbers n1, n2, n3, a tuple hg of names: hg[k] = "" means "the number n_k", any other name *)
+(* denotes a size_t value that no string in memory can reach (SIZE_MAX and its neighbours, the sign bit of the     *)
+(* 64-bit word, the values just outside 32 and 31 bits).  Their textbook meaning is the same in every operation:   *)
+(* a position beyond every string, a length / count larger than every string.  In the textbook operators (which    *)
+(* only ever compare a size with a length, take a minimum, or index below it) they are all represented by one      *)
+(* number `Beyond' that exceeds the length of every string the specification talks about (MC_SimpleStr checks      *)
+(* that every number >= the length behaves like Beyond).  No arithmetic is ever done on a symbolic size.           *)
+HugeNames == {"SIZE_MAX", "SIZE_MAX-1", "SIZE_MAX-2", "SIZE_MAX-3", "SIZE_MAX/2+1", "SIZE_MAX/2", "2^32", "2^32-1", "2^32+1", "2^31", "2^31+1"}
+Beyond == 1000000000
+SzOf(n, h) == IF h = "" THEN n ELSE Beyond
+\* the (function, operand slot) pairs for which a size beyond every buffer is a legal argument:
+\*   substring forms, findFrom: positions / amounts are clamped by definition;
+\*   StrNCmp: like strncmp, reads stop at the terminators, n is only an upper bound;
+\*   copyToBuffer: strlcpy-like, writes min(size - 1, length) bytes and the terminator - legal when the real buffer holds them;
+\*   repeat: only of the empty string (the result is empty; any other string would not fit in memory);
+\*   StringFromMaskedBits: the byte count is clamped to the width of unsigned long.
+\* NOT legal (the C contract makes n bytes accessible): StrNCpy (may pad up to n), MemCmp, at().
+HugeSlots(c) == CASE c.fn = "substr1" -> {1}
+                  [] c.fn = "substr2" -> {1, 2}
+                  [] c.fn = "findfrom" -> {1}
+                  [] c.fn = "strncmp" -> {1}
+                  [] c.fn = "copytobuf" -> {1}
+                  [] c.fn = "repeat" -> IF c.s1 = <<>> THEN {1} ELSE {}
+                  [] c.fn = "maskedbits" -> {3}
+                  [] OTHER -> {}
+HgOK(c) == /\ DOMAIN c.hg = 1..3
+           /\ \A k \in 1..3 : c.hg[k] = "" \/ (c.hg[k] \in HugeNames /\ k \in HugeSlots(c))
+           /\ (c.hg[1] # "" => c.n1 = 0) /\ (c.hg[2] # "" => c.n2 = 0) /\ (c.hg[3] # "" => c.n3 = 0)
+\* the call with its sizes as the textbook operators see them
+Norm(c) == [c EXCEPT !.n1 = SzOf(c.n1, c.hg[1]), !.n2 = SzOf(c.n2, c.hg[2]), !.n3 = SzOf(c.n3, c.hg[3])]
+
+-----------------------------------------------------------------------------
+(* Pure calls: c = [fn, s1, s2, s3, n1, n2, n3, hg].  Expected(c) is the textbook result. *)
 Fns == {"ctor", "repeat", "copy", "plus", "append", "appendc", "eq", "ne", "eqnocase", "contains", "containsnocase",
         "startswith", "endswith", "count", "find", "findfrom", "substr1", "substr2", "subfromtill", "split", "replacech",
         "replacestr", "lower", "printable", "pad", "copytobuf", "at", "size", "isempty", "strcmp", "strncmp", "strlen",
@@ -124,14 +157,14 @@ IsCStr(s) == \A i \in 1..Len(s) : s[i] \in 1..255
 IsBlock(s) == \A i \in 1..Len(s) : s[i] \in 0..255
 OrNull(s, P(_)) == IsNull(s) \/ P(s)
 
-\* the calls the specification talks about
-Pre(c) ==
+\* the calls the specification talks about (PreN / ExpectedN / ResOKN see the normalised call)
+PreN(c) ==
     /\ c.fn \in Fns
     /\ CASE c.fn \in {"ctor", "fromornull", "printableornull"} -> IsNull(c.s1) \/ IsCStr(c.s1)
          [] c.fn \in {"binary", "binarysize"} -> IsBlock(c.s1)
          [] c.fn \in {"binaryornull", "binarysizeornull"} -> IsNull(c.s1) \/ IsBlock(c.s1)
          [] c.fn = "memcmp" -> IsBlock(c.s1) /\ IsBlock(c.s2) /\ c.n1 <= Len(c.s1) /\ c.n1 <= Len(c.s2)
-         [] c.fn = "maskedbits" -> ToSetOf(c.s1) \subseteq 0..63 /\ ToSetOf(c.s2) \subseteq 0..63 /\ c.n3 \in 1..16
+         [] c.fn = "maskedbits" -> ToSetOf(c.s1) \subseteq 0..63 /\ ToSetOf(c.s2) \subseteq 0..63 /\ (c.n3 \in 1..16 \/ c.n3 = Beyond)
          [] c.fn = "at" -> IsCStr(c.s1) /\ c.n1 <= Len(c.s1)
          [] c.fn \in {"atoi", "atou"} -> IsCStr(c.s1) /\ NumLen(c.s1) <= 9
          [] c.fn = "tolower" -> c.n1 \in 0..255
@@ -145,8 +178,10 @@ Pre(c) ==
     /\ c.n1 \in Int /\ c.n2 \in Int /\ c.n3 \in Int
     /\ (c.fn \notin {"dec", "hexschar"} => (c.n1 >= 0 /\ c.n2 >= 0 /\ c.n3 >= 0))
 
+Pre(c) == (c.fn \in Fns /\ HgOK(c)) /\ PreN(Norm(c))
+
 BoolOf(b) == b
-Expected(c) ==
+ExpectedN(c) ==
     CASE c.fn = "ctor" -> IF IsNull(c.s1) THEN <<>> ELSE c.s1
       [] c.fn = "repeat" -> Rep(c.s1, c.n1)
       [] c.fn = "copy" -> c.s1
@@ -197,8 +232,10 @@ Expected(c) ==
       [] c.fn = "maskedbits" -> MaskedBits(ToSetOf(c.s1), ToSetOf(c.s2), c.n3)
       [] c.fn = "ordinal" -> Ordinal(c.n1)
 
+Expected(c) == ExpectedN(Norm(c))
+
 \* Is `res' a result the specification allows for call c?
-ResOK(c, res) ==
+ResOKN(c, res) ==
     CASE c.fn = "printable" -> res \in Printables(c.s1)
       [] c.fn = "printableornull" -> IF IsNull(c.s1) THEN res = T_null ELSE res \in Printables(c.s1)
       \* StrNCpy(dst[n1], src): res = the n1 bytes of dst afterwards (prefilled with 170).  The bytes of src up to and
@@ -207,7 +244,8 @@ ResOK(c, res) ==
                              /\ \A i \in 1..c.n1 : IF i <= Len(c.s1) THEN res[i] = c.s1[i]
                                                    ELSE IF i = Len(c.s1) + 1 THEN res[i] = 0
                                                    ELSE res[i] \in {0, 170}
-      [] OTHER -> res = Expected(c)
+      [] OTHER -> res = ExpectedN(c)
+ResOK(c, res) == ResOKN(Norm(c), res)
 
 -----------------------------------------------------------------------------
 (* Allocator events: <<1, id, size>> = buffer id of `size' bytes obtained, <<2, id, size>> = returned.            *)
@@ -249,9 +287,13 @@ Pure(c, r, ev) ==
     /\ (LET st == ApplyEvs(live, ev) IN st.ok /\ st.live = live) = TRUE
     /\ res' = r /\ UNCHANGED <<val, live>>
 
-\* Object calls: o = [fn, i, j, k, s1, s2, n1, n2]
+\* Object calls: o = [fn, i, j, k, s1, s2, n1, n2, hg]; hg = <<h1, h2>> as for the pure calls (only `sub' takes sizes)
+OSz(o, k) == SzOf(IF k = 1 THEN o.n1 ELSE o.n2, o.hg[k])
+OHgOK(o) == /\ DOMAIN o.hg = 1..2
+            /\ \A k \in 1..2 : o.hg[k] = "" \/ (o.hg[k] \in HugeNames /\ o.fn = "sub")
+            /\ (o.hg[1] # "" => o.n1 = 0) /\ (o.hg[2] # "" => o.n2 = 0)
 ObjFns == {"new", "del", "assign", "append", "appendlit", "replacech", "replacestr", "pad", "sub", "lower", "plus", "printable", "end"}
-ObjPre(o) ==
+ObjPreN(o) ==
     CASE o.fn = "new" -> o.i \in Objs /\ ~Exists(o.i) /\ IsCStr(o.s1)
       [] o.fn = "del" -> o.i \in Objs /\ Exists(o.i)
       [] o.fn \in {"assign", "append", "lower", "printable"} -> o.i \in Objs /\ o.j \in Objs /\ Exists(o.i) /\ Exists(o.j)
@@ -262,6 +304,7 @@ ObjPre(o) ==
       [] o.fn = "pad" -> o.i \in Objs /\ o.j \in Objs /\ o.i # o.j /\ Exists(o.i) /\ Exists(o.j) /\ o.n1 \in 1..255
       [] o.fn = "plus" -> o.i \in Objs /\ o.j \in Objs /\ o.k \in Objs /\ Exists(o.i) /\ Exists(o.j) /\ Exists(o.k)
       [] o.fn = "end" -> TRUE
+ObjPre(o) == OHgOK(o) /\ ObjPreN(o)
 \* the contents after the call (a set: printable leaves a choice)
 ObjPost(o) ==
     CASE o.fn = "new" -> {[val EXCEPT ![o.i] = o.s1]}
@@ -272,7 +315,7 @@ ObjPost(o) ==
       [] o.fn = "replacech" -> {[val EXCEPT ![o.i] = ReplaceChar(val[o.i], o.n1, o.n2)]}
       [] o.fn = "replacestr" -> {[val EXCEPT ![o.i] = ReplaceSub(val[o.i], o.s1, o.s2)]}
       [] o.fn = "pad" -> LET p == Padded(val[o.i], val[o.j], o.n1) IN {[val EXCEPT ![o.i] = p[1], ![o.j] = p[2]]}
-      [] o.fn = "sub" -> {[val EXCEPT ![o.i] = SubStr2(val[o.j], o.n1, o.n2)]}
+      [] o.fn = "sub" -> {[val EXCEPT ![o.i] = SubStr2(val[o.j], OSz(o, 1), OSz(o, 2))]}
       [] o.fn = "lower" -> {[val EXCEPT ![o.i] = Lower(val[o.j])]}
       [] o.fn = "plus" -> {[val EXCEPT ![o.i] = val[o.j] \o val[o.k]]}
       [] o.fn = "printable" -> {[val EXCEPT ![o.i] = p] : p \in Printables(val[o.j])}
